@@ -86,7 +86,8 @@ class SX(object):
             return self.is_scalar(e.left) and self.is_scalar(e.right)
         if isinstance(e, ast.Call):
             f = ast.unparse(e.func)
-            return f in ('np.sqrt', 'float') or f.endswith('.norm') or f.endswith('.inner')
+            return f in ('np.sqrt', 'np.abs') or f.endswith('.norm') or f.endswith('.inner') \
+                or f in self.cfg.get('sfuncs', {})
         return False
 
     def scal(self, e):
@@ -127,6 +128,11 @@ class SX(object):
             f = e.func
             if ast.unparse(f) == 'np.sqrt' and len(e.args) == 1:
                 return '(rt %s)' % self.scal(e.args[0])
+            if ast.unparse(f) == 'np.abs' and len(e.args) == 1:
+                return '(nabs %s)' % self.scal(e.args[0])
+            if ast.unparse(f) in self.cfg.get('sfuncs', {}) and len(e.args) == 1 and not e.keywords:
+                a, sa = self.vec(e.args[0])
+                return '(%s %s)' % (self.cfg['sfuncs'][ast.unparse(f)], a)
             if isinstance(f, ast.Attribute) and f.attr == 'norm' and not e.args:
                 x, sp = self.vec(f.value)
                 return '(rt (%s %s %s))' % (self.ops(sp)[2], x, x)
@@ -228,6 +234,8 @@ class SX(object):
                 return '(%s <=? %s)' % (a, b)
             if isinstance(o, ast.Lt):
                 return '(%s <? %s)' % (a, b)
+            if isinstance(o, ast.Gt):
+                return '(%s <? %s)' % (b, a)
         self.err(t, 'test outside the grammar')
 
     def stmts(self, body):
@@ -256,6 +264,22 @@ class SX(object):
                                                        or (isinstance(s.body[0], ast.Raise) and t in cfg.get('raise_stops', ()))):
                 self.lines.append('if %s then None else' % self.test(s.test))
                 return
+            # `if TEST: <one scalar update>`  ->  v := if TEST then new else old
+            if len(s.body) == 1 and not s.orelse and isinstance(s.body[0], (ast.AugAssign, ast.Assign)):
+                tgt = s.body[0].target if isinstance(s.body[0], ast.AugAssign) else s.body[0].targets[0]
+                if isinstance(tgt, ast.Name) and self.env.get(tgt.id, ('?',))[0] == 'scal':
+                    old_v = self.env[tgt.id][1]
+                    cond = self.test(s.test)
+                    keep = list(self.lines)
+                    self.stmt(s.body[0])
+                    new_v = self.env[tgt.id][1]
+                    inner = self.lines[len(keep):]
+                    if len(inner) != 1 or not inner[0].startswith('let %s := ' % new_v):
+                        self.err(s, 'conditional update is not a single scalar assignment')
+                    rhs = inner[0][len('let %s := ' % new_v):-len(' in')]
+                    self.lines = keep
+                    self.bind_scalar(tgt.id, '(if %s then %s else %s)' % (cond, rhs, old_v))
+                    return
             self.err(s, 'conditional outside the grammar (add its test to flags / skip_tests if that is sound)')
         if isinstance(s, ast.Assign) and len(s.targets) == 1:
             tg, v = s.targets[0], s.value
@@ -561,6 +585,96 @@ def gen_fb(repo):
             '    (s : V * list W) : V * list W :=', "  let '(x, vs) := s in", step + '.', '']
 
 
+BT = dict(file='odl/solvers/util/steplen.py',
+          sfuncs={'self.function': 'f'},
+          scalar_consts={'self.tau': 'tau', 'self.discount': 'discount', 'self.alpha': 'alpha_st'},
+          scalars=['fx', 'dir_derivative'], skip_tests=['np.isnan(fval)'])
+# the control skeleton of BacktrackingLineSearch.__call__ is pinned statement by statement; the FORMULAS inside it
+# (start value and sign of alpha, trial point, acceptance test, shrinking, final assertion) are regenerated
+BT_SKELETON_PRE = ['fx = self.function(x)', None,           # None: the dir_derivative=None preparation (pinned below)
+                   'if dir_derivative == 0: raise', 'ALPHA0', 'if dir_derivative > 0: ALPHA_SIGN',
+                   'if not np.isfinite(fx): raise', 'point = x.copy()', 'num_iter = 0', 'WHILE',
+                   'assert fval < fx', 'self.total_num_iter += num_iter', 'self.alpha = np.abs(alpha)', 'return alpha']
+BT_DD_PREP = ("if dir_derivative is None:\n    try:\n        gradient = self.function.gradient\n    except AttributeError:\n"
+              "        raise ValueError('`dir_derivative` only optional if `function.gradient exists')\n    else:\n"
+              "        dir_derivative = gradient(x).inner(direction)\nelse:\n    dir_derivative = float(dir_derivative)")
+
+
+def gen_backtracking(repo):
+    tree = ast.parse(open(os.path.join(repo, BT['file'])).read())
+    cls = [n for n in tree.body if isinstance(n, ast.ClassDef) and n.name == 'BacktrackingLineSearch']
+    if len(cls) != 1:
+        raise C.TranslateError('BacktrackingLineSearch not found')
+    call = [n for n in cls[0].body if isinstance(n, ast.FunctionDef) and n.name == '__call__']
+    if len(call) != 1:
+        raise C.TranslateError('BacktrackingLineSearch.__call__ not found')
+    body = [s for s in call[0].body if not (isinstance(s, ast.Expr) and isinstance(s.value, ast.Constant))]
+    if len(body) != len(BT_SKELETON_PRE):
+        raise C.TranslateError('BacktrackingLineSearch.__call__: %d statements, expected %d' % (len(body), len(BT_SKELETON_PRE)))
+
+    def head(st):
+        src = ast.unparse(st)
+        if isinstance(st, ast.If) and len(st.body) == 1 and isinstance(st.body[0], ast.Raise) and not st.orelse:
+            return 'if %s: raise' % ast.unparse(st.test)
+        return src
+    for st, want in zip(body, BT_SKELETON_PRE):
+        if want in ('ALPHA0', 'WHILE') or (want or '').endswith('ALPHA_SIGN'):
+            continue
+        if want is None:
+            if ast.unparse(st) != BT_DD_PREP:
+                raise C.TranslateError('BacktrackingLineSearch.__call__: the dir_derivative preparation changed')
+            continue
+        if head(st) != want:
+            raise C.TranslateError('BacktrackingLineSearch.__call__: expected `%s`, found `%s`' % (want, head(st)[:80]))
+    a0, asign, loop = body[3], body[4], body[8]
+    # ---- start value of alpha
+    if not (isinstance(a0, ast.If) and ast.unparse(a0.test) == 'not self.estimate_step' and len(a0.body) == 1
+            and len(a0.orelse) == 1):
+        raise C.TranslateError('BacktrackingLineSearch.__call__: start value of alpha has an unexpected shape')
+    starts = []
+    for branch in (a0.orelse, a0.body):          # estimate_step = True, False
+        sx = SX('backtracking', BT)
+        sx.stmts(branch)
+        if not (isinstance(asign, ast.If) and ast.unparse(asign.test) == 'dir_derivative > 0'):
+            raise C.TranslateError('BacktrackingLineSearch.__call__: sign rule of alpha has an unexpected shape')
+        sx.stmt(asign)
+        starts.append(emit(sx, sx.env['alpha'][1], '    '))
+    # ---- the loop
+    if not (isinstance(loop, ast.While) and ast.unparse(loop.test) == 'True' and not loop.orelse):
+        raise C.TranslateError('BacktrackingLineSearch.__call__: expected `while True:`')
+    lb = loop.body
+    shape = [head(lb[0])] + [type(st).__name__ for st in lb[1:]]
+    if shape != ['if num_iter > self.max_num_iter: raise', 'Expr', 'Assign', 'If', 'Assign', 'If', 'AugAssign', 'AugAssign'] \
+            or ast.unparse(lb[5].body[0]) != 'break' or lb[5].orelse or ast.unparse(lb[6]) != 'num_iter += 1' \
+            or ast.unparse(lb[3].test) != 'np.isnan(fval)':
+        raise C.TranslateError('BacktrackingLineSearch.__call__: loop body has an unexpected shape: %s' % shape)
+    sx = SX('backtracking', dict(BT, scalars=['fx', 'dir_derivative', 'alpha']))
+    param(sx, 'x', 'V')
+    param(sx, 'direction', 'V')
+    sx.env['point'] = ('vec', sx.new_obj(None, 'V'))
+    sx.stmt(lb[1])                                   # point.lincomb(1, x, alpha, direction)
+    point = emit(sx, sx.val[sx.env['point'][1]][0])
+    sy = SX('backtracking', dict(BT, scalars=['fx', 'dir_derivative', 'alpha', 'fval']))
+    sy.stmt(lb[4])                                   # expected_decrease = ...
+    accept = emit(sy, sy.test(lb[5].test))
+    if ast.unparse(lb[2]) != 'fval = self.function(point)':
+        raise C.TranslateError('BacktrackingLineSearch.__call__: fval is not self.function(point)')
+    sz = SX('backtracking', dict(BT, scalars=['alpha']))
+    sz.stmt(lb[7])                                   # alpha *= self.tau
+    nxt = emit(sz, sz.env['alpha'][1])
+    sa = SX('backtracking', dict(BT, scalars=['fx', 'fval']))
+    asrt = sa.test(body[9].test)
+    sd = SX('backtracking', dict(BT, scalars=['dir_derivative']))
+    zero = sd.test(body[2].test)
+    return ['Definition gen_bt_zero_derivative (dir_derivative : T) : bool := %s.' % zero,
+            'Definition gen_bt_alpha0 (estimate : bool) (alpha_st dir_derivative : T) : T :=',
+            '  if estimate then\n%s\n  else\n%s.' % (starts[0], starts[1]),
+            'Definition gen_bt_point (x direction : V) (alpha : T) : V :=', point + '.',
+            'Definition gen_bt_accept (discount fx dir_derivative alpha fval : T) : bool :=', accept + '.',
+            'Definition gen_bt_next (tau alpha : T) : T :=', nxt + '.',
+            'Definition gen_bt_assert (fx fval : T) : bool := %s.' % asrt, '']
+
+
 def translate(repo=None):
     repo = repo or C.REPO
     out = ['(* GENERATED by translate/solvers_c12.py from the solver sources -- do not edit. *)',
@@ -577,6 +691,7 @@ def translate(repo=None):
                       '(A : V -> W) (At : W -> V) (s : @cgnst T V W) : option (@cgnst T V W)', False)
     out += gen_power(repo)
     out += gen_fb(repo)
+    out += gen_backtracking(repo)
     out.append('End Gen.')
     return '\n'.join(out) + '\n'
 
